@@ -49,27 +49,39 @@ def check_alloc(prog: Program, res: Result, rule: str = "C09-alloc") -> None:
                 raise AnalysisError(f"{cq}.{m} vanished")
         g = ci.methods["get_new_track_id"]
         res.touch(g)
-        rets = [n for n in walk_function(g.node) if isinstance(n, ast.Return) and n.value is not None]
-        vals: List[ast.AST] = []
-        for r in rets:
-            v = r.value
-            if isinstance(v, ast.Name):
-                vals += [st.value for st in astq.assignments_to(g.node, v.id) if isinstance(st, ast.Assign)]
-            else:
-                vals.append(v)
-        texts = sorted(norm(v) for v in vals)
+        # every path of get_new_track_id (if/else, guard clause or conditional expression): the value returned and the
+        # branch decisions it was returned under
+        paths = []
+        for conds, v in astq.path_returns(g.node) or []:
+            todo = [(list(conds), v)]
+            while todo:
+                cs_, v_ = todo.pop()
+                if isinstance(v_, ast.IfExp):
+                    todo += [(cs_ + [(v_.test, True)], v_.body), (cs_ + [(v_.test, False)], v_.orelse)]
+                else:
+                    paths.append((cs_, v_))
+        texts = sorted({norm(v) for _, v in paths if v is not None})
         # len(current_tracks) equals max+1 because ids are exactly 0..n-1 (registered once each, never removed: checked below)
         ok = texts in (["0", "max(self.current_tracks) + 1"], ["0", "len(self.current_tracks)"], ["len(self.current_tracks)"])
         res.ob(rule, ok, g.qualname, "new id is 0 or max(self.current_tracks) + 1",
                f"a new track id is computed as {texts}: ids may be reused or collide (two animals with one identity)", g.where,
                sample={"values": texts})
-        # the 0 is returned only when current_tracks is empty
-        zero_guard = False
-        for n in walk_function(g.node):
-            if isinstance(n, ast.If) and norm(n.test) in ("not self.current_tracks", "len(self.current_tracks) == 0"):
-                zero_guard = any(isinstance(s, ast.Assign) and norm(s.value) == "0" for s in n.body) or any(
-                    isinstance(s, ast.Return) and norm(s.value) == "0" for s in n.body)
-        res.ob(rule, zero_guard, g.qualname, "id 0 only when no track exists",
+
+        def _says_empty(t_, taken_):
+            """the decision (t_, taken_) says that self.current_tracks is empty"""
+            neg_ = isinstance(t_, ast.UnaryOp) and isinstance(t_.op, ast.Not)
+            core_ = t_.operand if neg_ else t_
+            if norm(core_) == "self.current_tracks":
+                return taken_ == neg_          # `not tracks` taken, or `tracks` not taken
+            if isinstance(core_, ast.Compare) and len(core_.ops) == 1 and norm(core_.left) == "len(self.current_tracks)" and astq.const_value(core_.comparators[0]) == 0:
+                is_eq = isinstance(core_.ops[0], ast.Eq)
+                is_pos = isinstance(core_.ops[0], (ast.Gt, ast.NotEq))
+                return (is_eq and taken_ != neg_) or (is_pos and taken_ == neg_)
+            return False
+
+        zeros = [(cs_, v_) for cs_, v_ in paths if v_ is not None and norm(v_) == "0"]
+        zero_guard = bool(zeros) and all(any(_says_empty(t_, tk_) for t_, tk_ in cs_) for cs_, _ in zeros)
+        res.ob(rule, zero_guard or texts == ["len(self.current_tracks)"], g.qualname, "id 0 only when no track exists",
                "id 0 is not guarded by `not self.current_tracks`", g.where)
 
         a = ci.methods["add_new_tracks"]
@@ -102,7 +114,12 @@ def check_alloc(prog: Program, res: Result, rule: str = "C09-alloc") -> None:
             # the id is stored on the instance
             stores = []
             for n in walk_function(a.node):
-                if isinstance(n, ast.Assign) and isinstance(n.value, ast.Name) and n.value.id == idn and "track_id" in norm(n.targets[0]):
+                if not (isinstance(n, ast.Assign) and len(n.targets) == 1):
+                    continue
+                t_, v_ = n.targets[0], n.value
+                # x.track_id = id   or one component of   x.track_id, x.score = id, 1.0
+                pairs_ = list(zip(t_.elts, v_.elts)) if isinstance(t_, (ast.Tuple, ast.List)) and isinstance(v_, (ast.Tuple, ast.List)) and len(t_.elts) == len(v_.elts) else [(t_, v_)]
+                if any(isinstance(vv_, ast.Name) and vv_.id == idn and "track_id" in norm(tt_) for tt_, vv_ in pairs_):
                     stores.append(n)
             sn = {n for x in stores for n in cfg.stmt_nodes_containing(x)}
             w = cfg.must_pass(succ, heads + [cfg.exit], sn, drop_edge=lambda x, y, labels: "exc" in labels)
@@ -539,7 +556,8 @@ def check_pass(prog: Program, res: Result) -> None:
                     return False
 
                 sets = [s_ for s_ in walk_function(an.node) if isinstance(s_, ast.Assign) and norm(s_.targets[0]) == t.id]
-                trues = [s_ for s_ in sets if astq.const_value(s_.value) is True]
+                # raised to True - or to a boolean PARAMETER (flag = add_to_queue where a track is created: "created and add_to_queue")
+                trues = [s_ for s_ in sets if astq.const_value(s_.value) is True or (isinstance(s_.value, ast.Name) and s_.value.id in params)]
                 falses = [s_ for s_ in sets if astq.const_value(s_.value) is False]
                 empties = [s_ for s_ in sets if isinstance(s_.value, ast.List) and not s_.value.elts]
                 adds = [c_ for c_ in astq.method_calls(an.node, "append") if norm(c_.func.value) == t.id]
